@@ -10,7 +10,9 @@ CFG = {
     "level_text": "Theorems (all configurations, arbitrary byte strings, no bound): parseDockerRun(dockerRunArgv(start_container cfg)) = "
                   "exactly the configured entrypoint/env/ports/mounts/image/command and no other option; the same for run_shell_command, "
                   "shell_exec and pack build (builder, path, buildpacks in order, every env pair, caches); configured entries reach the "
-                  "command line exactly once (permutation); tokenizer-level value_positions with no hypothesis on user strings. Bind-mount "
+                  "command line exactly once (permutation); tokenizer-level value_positions with no hypothesis on user strings; bind_mounts_exactly_configured (every configuration with pairwise "
+                  "different source paths, any characters: the --mount values docker reads are a permutation of type=bind,source=<text>,target=<text> "
+                  "over the configured pairs - texts verbatim, none missing, different texts naming one host location never merged). Bind-mount "
                   "paths / buildpack references containing a CSV metacharacter are excluded (`_partial`), the full statements are "
                   "refuted by witnesses (finding D6). Tied to the code by exact argv comparison of the real TestRunner::build / "
                   "start_container / run_shell_command / shell_exec / download_sbom_files / rebuild with the model, and by the "
@@ -36,7 +38,14 @@ CFG = {
                   "pack one (the spec oracle's older docker-run/exec count checks are kept as they were); that the build's result IS the "
                   "invocation's result (hand-over) is my reading of `results in one invocation`. Not covered: CommandError::Io (spawn errors other "
                   "than not-found), a pack killed by a signal in a scripted case, outputs above ~6 kB, a pack stand-in whose behaviour depends on "
-                  "how often it was called other than through the script.",
+                  "how often it was called other than through the script. Bind mounts: the clause proved (bind_mounts_exactly_configured) and judged "
+                  "(docker-run[j]:mounts = multiset of parsed --mount options against the configured (source text, target) pairs) treats a source as "
+                  "an opaque text - as configured, one option per pair; host file-system state is a dimension of the harness only (sources that "
+                  "exist, through symlinks, aliases of one location), the model has no file system by design. Identical PathBufs (component-wise: "
+                  "/a/ = /a = /a/. = //a) overwrite in the configuration's HashMap - that is the configuration, not a loss. Not covered: relative "
+                  "sources that exist relative to the test's working directory, existing absolute sources outside the scratch directory (/proc, "
+                  "/tmp itself), a /$S source beside another absolute source in one configuration, a scratch directory whose own path is not canonical "
+                  "(the harness canonicalises its root, so a rewrite that only resolves a symlinked TMPDIR prefix is seen only through the links inside).",
     "shrink": [],
     "rule": "exhaustive: each of 32 distinct hostile strings (leading dashes, option look-alikes of docker/pack, '=', spaces, empty, Unicode, shell "
             "metacharacters) alone in each of up to 12 positions (the empty string is not used as env key, mount path or buildpack reference, strings with = not as env key) (entrypoint, sole/middle command word, env value, env key, mount source, mount "
@@ -67,9 +76,21 @@ CFG = {
             "with expected result Failure at 2/5, every pack build scripted to end as expected at 7/8 else against the expectation, texts from "
             "the pool on both streams, sbom downloads scripted exit 0 with texts, at 1/2 one to three docker invocations (numbers 0..7) scripted, 1/6 "
             "of them failing): quick 400, thorough 6000. "
+            "Bind-mount sources that EXIST on the host when start_container runs: a source text may start with the placeholder /$S, "
+            "which the scenario runner replaces by a per-case scratch directory it creates (real/ with sub/ and a file, link -> real, "
+            "via/link2 -> ../real, abslink -> <absolute>/real, releases/v2/, current -> releases/v2, file, flink -> file, dangling -> "
+            "nowhere) and renames back to /$S in the recorded argv; model and spec oracle see the configured text, so docker must "
+            "receive exactly that text. exhaustive part 4: each of 30 spellings alone (the directory, through a symlink / an absolute "
+            "symlink / a symlinked parent, with trailing slash, '.', '..', '//', below a symlink, the releases/current layout, a file, a "
+            "symlink to a file, a dangling link, missing paths, the scratch root itself); every ordered pair of 7 different texts for the "
+            "ONE location real/ (42 pairs, two targets); 7 triples x 3 shapes (aliases of one location at three targets / the same "
+            "target, mixed with relative and missing sources). In the random scenarios one container configuration in three (never the "
+            "D6 minority) draws its 1-3 sources from those pools (1/2 from the 7 aliases of one location), 1/2 mixed with relative "
+            "sources; a configuration with a /$S source has no other absolute source (an absolute path sorts before a relative one "
+            "whatever the temp directory is called; the order between /$S and another absolute path would depend on it). "
             "Every 40th sample carries a CSV metacharacter in a mount path, every other 40th "
             "in a buildpack reference (kind=d6-*; none during a violation search). quick: 1600 samples, thorough: 20000. "
-            "non-trivial = at least one hostile string (empty, leading '-', contains '=' or space, non-ASCII) in a user-supplied position, or (scripted "
+            "non-trivial = at least one hostile string (empty, leading '-', contains '=' or space, non-ASCII) in a user-supplied position, or a bind-mount source below /$S, or (scripted "
             "cases) a scripted invocation with non-zero exit, non-empty stderr or ill-formed UTF-8; "
             "distinct = distinct input line",
     "trusted_base": ["Spec/Pflag.lean, Spec/DockerGrammar.lean, Spec/PackGrammar.lean are my reading of pflag's tokenizer and of the docker / pack option tables (reference models; the tools are absent)",
